@@ -21,34 +21,58 @@ def impl_env(extra=None):
 class BuildResult:
     def __init__(self): self.ok = True; self.log = ''; self.failed_file = None; self.gen_error = None
 
+def _make(args, timeout=3600):
+    return subprocess.run(['make', '-s'] + args, cwd=VERIF, capture_output=True, text=True, timeout=timeout,
+                          env=dict(os.environ, NBDIME_REPO=REPO))
+
 def build(targets=None):
-    """Regenerate Gen/*.v from /repo, build the Coq development (full .vo) and the extracted runner.
-    Serialised by a file lock; incremental when nothing changed."""
+    """Regenerate Gen/*.v from /repo and (re)build the extracted runner nbmodel; with targets (paths
+    relative to coq/, e.g. ['Props/C02.vo']) also build those.  The property theorems themselves are
+    built by Check.proof_obligations (only the closure of Props/Cxx.v, so an unrelated broken or slow
+    file cannot disturb this property).  Serialised by a file lock; incremental."""
     res = BuildResult()
+    res.model_ok = False
     lock = open(os.path.join(VERIF, '.coq-build.lock'), 'w')
     fcntl.flock(lock, fcntl.LOCK_EX)
     try:
-        p = subprocess.run(['make', '-s', 'gen'], cwd=VERIF, capture_output=True, text=True, env=dict(os.environ, NBDIME_REPO=REPO))
+        p = _make(['gen'])
         if p.returncode != 0:
             res.ok = False; res.gen_error = (p.stderr + p.stdout)[-3000:]; res.log = res.gen_error
             return res
-        p = subprocess.run(['make', '-s', 'coq'], cwd=VERIF, capture_output=True, text=True)
+        if targets:
+            pt = build_targets(targets, locked=True)
+            res.log += pt.log
+            if not pt.ok: res.ok = False; res.failed_file = pt.failed_file
+        p2 = _make(['model'])
+        res.model_ok = (p2.returncode == 0)
+        if p2.returncode != 0:
+            res.log += (p2.stdout + p2.stderr)[-3000:]
+        return res
+    finally:
+        fcntl.flock(lock, fcntl.LOCK_UN); lock.close()
+
+def build_targets(targets, locked=False):
+    """make the given .vo targets (full .vo build, every coqc under a timeout)."""
+    res = BuildResult()
+    lock = None
+    if not locked:
+        lock = open(os.path.join(VERIF, '.coq-build.lock'), 'w'); fcntl.flock(lock, fcntl.LOCK_EX)
+    try:
+        p = _make(['coq/Makefile.coq'])
+        subprocess.run(['bash', '-c', "cd coq && find Base Diff Merge Schema Ts Sys Gen Props Extract -name '*.v' ! -name Extract.v | sort > .vfiles.new && "
+                        "{ cmp -s .vfiles .vfiles.new || { mv .vfiles.new .vfiles && coq_makefile -f _CoqProject $(cat .vfiles) -o Makefile.coq; }; }; rm -f .vfiles.new"],
+                       cwd=VERIF, capture_output=True, text=True)
+        p = subprocess.run(['timeout', '3000', 'make', '-f', 'Makefile.coq', '-j16', '--no-print-directory',
+                            "COQC=timeout 900 coqc"] + list(targets), cwd=COQ, capture_output=True, text=True)
         res.log = (p.stdout + p.stderr)[-6000:]
         if p.returncode != 0:
             res.ok = False
             m = re.search(r'File "\./([^"]+)", line (\d+)', p.stdout + p.stderr)
             if m: res.failed_file = m.group(1) + ':' + m.group(2)
-            # keep going: build whatever still compiles so the model can run for the search
-            subprocess.run(['make', '-s', '-k', 'coq'], cwd=VERIF, capture_output=True, text=True)
-        p2 = subprocess.run(['make', '-s', 'model'], cwd=VERIF, capture_output=True, text=True)
-        if p2.returncode != 0:
-            res.model_ok = False
-            res.log += (p2.stdout + p2.stderr)[-3000:]
-        else:
-            res.model_ok = True
         return res
     finally:
-        fcntl.flock(lock, fcntl.LOCK_UN); lock.close()
+        if lock is not None:
+            fcntl.flock(lock, fcntl.LOCK_UN); lock.close()
 
 def coq_closure(vfile):
     """Transitive .v dependencies of a file inside the NB development."""
@@ -58,9 +82,10 @@ def coq_closure(vfile):
         if f in seen or not os.path.exists(os.path.join(COQ, f)): continue
         seen.add(f)
         txt = open(os.path.join(COQ, f)).read()
-        for m in re.finditer(r'From NB Require (?:Import|Export)?\s*([^.]*(?:\.[A-Za-z_][^.\s]*)*)\.', txt):
+        txt = re.sub(r'\(\*.*?\*\)', '', txt, flags=re.S)
+        for m in re.finditer(r'From\s+NB\s+Require\s+(?:Import\s+|Export\s+)?((?:[A-Za-z_][\w.]*\s+)*[A-Za-z_][\w.]*?)\.(?=\s|$)', txt):
             for mod in m.group(1).split():
-                todo.append(mod.replace('.', '/') + '.v')
+                todo.append(mod.strip('.').replace('.', '/') + '.v')
     return sorted(seen)
 
 def count_obligations(files):
@@ -181,6 +206,10 @@ class Check:
         """Accounts for the Coq side.  Returns True iff every obligation of the property is discharged."""
         closure = coq_closure(prop_file)
         n, names = count_obligations(closure)
+        if not build_res.gen_error:
+            pb = build_targets([prop_file[:-2] + '.vo'])
+            if not pb.ok:
+                build_res.ok = False; build_res.failed_file = pb.failed_file; build_res.log = pb.log
         self.cov['obligations'] = n
         self.cov['checker_cmd'] = 'make -C /verif coq  (coq_makefile, coqc 8.16.1, full .vo build of %s and its closure)' % prop_file
         ok = True
